@@ -123,6 +123,14 @@ func runRouterEngine(p *Property, c *Case, trace bool) Verdict {
 		v.Reason = viol.Reason
 		v.Step = viol.Step
 		v.Log = e.Log.Tail()
+		if trace {
+			v.Trace = e.Trace
+		}
+		if earlyVerdict != nil {
+			// report before cleaning up: releasing the engine's goroutines closes the
+			// router, which may itself hang when the violation is a wedged router
+			earlyVerdict(v)
+		}
 		e.Abandon()
 	}
 	if trace {
@@ -132,6 +140,10 @@ func runRouterEngine(p *Property, c *Case, trace bool) Verdict {
 }
 
 // ---- worker process ------------------------------------------------------------
+
+// earlyVerdict, when set (worker process), sends a violation verdict to the
+// shard before the engine is torn down.
+var earlyVerdict func(Verdict)
 
 type workerReq struct {
 	Case  *Case `json:"case"`
@@ -153,7 +165,17 @@ func WorkerMain(t *testing.T) {
 			if jerr := json.Unmarshal(line, &req); jerr != nil {
 				_ = enc.Encode(Verdict{Kind: "inconclusive", Reason: "bad request: " + jerr.Error()})
 			} else {
+				sent := false
+				earlyVerdict = func(v Verdict) {
+					if !sent {
+						sent = true
+						_ = enc.Encode(v)
+					}
+				}
 				v := runCaseInBubble(t, req.Case, req.Trace)
+				if sent {
+					return // the shard replaces the worker after a violation
+				}
 				_ = enc.Encode(v)
 				if v.Kind == "leak" || v.Kind == "deadlock" {
 					// Leftover goroutines of the failed bubble are inert but the
@@ -285,7 +307,8 @@ func (w *workerHandle) run(c *Case, trace bool) (v Verdict, alive bool) {
 			w.kill()
 			return Verdict{Kind: "inconclusive", Reason: "bad verdict: " + err.Error()}, false
 		}
-		if v.Kind == "leak" || v.Kind == "deadlock" {
+		if v.Kind == "leak" || v.Kind == "deadlock" || v.Kind == "violation" {
+			// (a violation verdict is sent before the engine is torn down, which may hang)
 			w.kill()
 			return v, false
 		}
